@@ -287,6 +287,12 @@ type e2eWire struct {
 	msgs    []*e2eMsg
 	faults  []*e2eFault
 	actProt int // >=0: rewrite ACT protocol to this value (0 = remove the field)
+	// mutate: replace the payload (text between "#TYPE:" and the line terminator) of the message
+	// with global index mutG by mutNew, when the whole line lies inside one write
+	mutG       int
+	mutNew     string
+	mutType    string // when not empty also replace the type
+	mutApplied bool
 	// onMsg is called (under the wire lock released) for every parsed message before it is
 	// delivered (phase "before") and after the write that completed it was delivered ("after").
 	onMsg func(m *e2eMsg, phase string)
@@ -301,7 +307,7 @@ type e2eWire struct {
 }
 
 func newE2EWire(seed int64, maxChunk int) *e2eWire {
-	w := &e2eWire{actProt: -1, silenceK: -1}
+	w := &e2eWire{actProt: -1, silenceK: -1, mutG: -1}
 	mk := func(dir string, s int64) *e2ePipe {
 		p := &e2ePipe{w: w, dir: dir, maxChunk: maxChunk, rng: rand.New(rand.NewSource(seed*7919 + s))}
 		p.parser = &e2eParser{dir: dir, binary: &w.binary, winNL: &w.winNL}
@@ -347,6 +353,12 @@ func (p *e2ePipe) Write(b []byte) (int, error) {
 		}
 	}
 	base := p.sent
+	for _, m := range done {
+		if m.G == w.mutG && !w.mutApplied && m.Off >= base && m.Off+m.Len <= base+len(b) && len(out) == len(b) {
+			out = e2eMutateLine(out, m.Off-base, w.mutType, w.mutNew)
+			w.mutApplied = true
+		}
+	}
 	p.sent += len(b)
 	out = w.applyFaults(p.dir, base, out)
 	cb := w.onMsg
@@ -576,3 +588,30 @@ func e2eSortedKeys(m map[string]e2eEntry) []string {
 }
 
 func e2eFmt(format string, a ...any) string { return fmt.Sprintf(format, a...) }
+
+// e2eMutateLine replaces, in the line starting at out[at] ("#TYPE:payload<nl>"), the payload
+// (and optionally the type).  Bytes after the line terminator (a binary block) are kept.
+func e2eMutateLine(out []byte, at int, newType, newPayload string) []byte {
+	nl := bytes.IndexByte(out[at:], '\n')
+	if nl < 0 || out[at] != '#' {
+		return out
+	}
+	end := at + nl
+	if end > at && out[end-1] == '!' {
+		end--
+	}
+	colon := bytes.IndexByte(out[at:end], ':')
+	if colon < 0 {
+		return out
+	}
+	var nb bytes.Buffer
+	nb.Write(out[:at])
+	if newType != "" {
+		nb.WriteString("#" + newType + ":")
+	} else {
+		nb.Write(out[at : at+colon+1])
+	}
+	nb.WriteString(newPayload)
+	nb.Write(out[end:])
+	return nb.Bytes()
+}
